@@ -94,6 +94,27 @@ pub fn base_verdict(sc: &Scenario, rec: &RunRecord) -> Verdict {
     v.max_in_flight = rec.stats.max_in_flight;
     v.virtual_time = rec.stats.virtual_time;
     v.faults = fault_counts(sc, rec);
+    for (i, o) in rec.outcomes.iter().enumerate() {
+        if let crate::run::Outcome::Ok(sol) = o {
+            for x in &sc.solves[i].problem.soft {
+                if sol.contains(x) {
+                    *v.probes.entry("soft_accepted").or_insert(0) += 1;
+                } else {
+                    *v.probes.entry("soft_rejected").or_insert(0) += 1;
+                }
+            }
+            for r in &sc.solves[i].problem.requirements {
+                if let crate::world::Req::Union(_) = r {
+                    let c = sc.world.req_cands(r);
+                    if let Some(f) = c.first() {
+                        if !sol.contains(f) {
+                            *v.probes.entry("union_not_first_member").or_insert(0) += 1;
+                        }
+                    }
+                }
+            }
+        }
+    }
     v.summary = rec
         .outcomes
         .iter()
